@@ -112,4 +112,21 @@ theorem C01_history_bounded_router (sch : Router.Scheme) (N p : Nat) (hp : 0 < p
   C01_history_bounded (N * p) 3 _ _ (router_inRange sch N p) (router_progress sch N p hp)
     (fun x d _ _ => router_hops_le sch p hp x d) ls s h
 
+/-- every well-formed placement (block, round-robin, any bijection): at most 3 hops as well -/
+theorem routerP_hops_le (P : RouterP.Placement) (hP : P.WF) (sch : Router.Scheme) (x d : Nat)
+    (hx : x < P.size) (hd : d < P.size) : P.hopsLeft sch x d ≤ 3 := by
+  unfold RouterP.Placement.hopsLeft
+  split
+  · omega
+  · cases sch with
+    | NONE => rw [RouterP.Placement.route_none]; simp
+    | NR => have := (RouterP.Placement.route_NR_shape hP hx hd).1; omega
+    | NLNR => exact (RouterP.Placement.route_NLNR_shape hP hx hd).1
+
+theorem C01_history_bounded_routerP (P : RouterP.Placement) (hP : P.WF) (sch : Router.Scheme)
+    (ls : List Label) (s : St) (h : run P.size (P.nextHop sch) St.init ls = some s) :
+    ls.length + total P.size (fun x d => P.hopsLeft sch x d) s ≤ 25 * asyncCount ls :=
+  C01_history_bounded P.size 3 _ _ (routerP_inRange P hP sch) (routerP_progress P hP sch)
+    (fun x d hx hd => routerP_hops_le P hP sch x d hx hd) ls s h
+
 end YgmVerif.Deliver
